@@ -100,7 +100,14 @@ def make_shape(rng, kind):
             s = CL.Cell3Sec(pos0, R0, cell_id=1, rotation=rot0)
         steps = [("pos", pos), ("radius", R)] + ([("rotation", rot)] if kind != "circle" else [])
         for i in rng.permutation(len(steps)):
-            setattr(s, steps[i][0], steps[i][1])
+            how = int(rng.integers(0, 3)) if steps[i][0] == "pos" else 0
+            if how == 1:
+                s.move_by_relative_coordinate(steps[i][1] - s.pos)
+            elif how == 2:
+                delta = steps[i][1] - s.pos
+                s.move_by_relative_polar_coordinate(abs(delta), math.atan2(delta.imag, delta.real))
+            else:
+                setattr(s, steps[i][0], steps[i][1])
         if kind == "circle":
             rot, rc = 0.0, "zero"
         return s, rc + "/setters"
@@ -205,8 +212,12 @@ def case_wrap_users(ctx, rng, idx):
             wrap.pos = rand_pos(rng)
             hist.append("move-wrap")
         elif op == 1 and ikind != "cellsquare":       # (rectangles ignore their pos setter)
-            inner.pos = rand_pos(rng)       # (its users move with it)
-            hist.append("move-inner")
+            if rng.random() < 0.5:
+                inner.pos = rand_pos(rng)       # (its users move with it)
+                hist.append("move-inner")
+            else:
+                inner.move_by_relative_coordinate(rand_pos(rng) - inner.pos)
+                hist.append("move-inner-relative")
         else:
             inner.add_random_users(1)
             hist.append("add-user")
@@ -296,6 +307,28 @@ def case_users(ctx, rng, idx):
             ctx.ev("users-min-distance", abs(p - s.pos) >= ratio * R * (1 - 1e-12),
                    cls=kind, detail={**tag, "user": p, "ratio": ratio,
                                      "dist_over_R": abs(p - s.pos) / R})
+    # the cell moves (setter or relative move): its users move with it
+    if kind in ("cell", "cell3sec") and users and rng.random() < 0.5:
+        newpos = rand_pos(rng)
+        how = int(rng.integers(0, 3))
+        if how == 0:
+            s.pos = newpos
+        elif how == 1:
+            s.move_by_relative_coordinate(newpos - s.pos)
+        else:
+            dl = newpos - s.pos
+            s.move_by_relative_polar_coordinate(abs(dl), math.atan2(dl.imag, dl.real))
+        V2 = np.asarray(s.vertices)
+        scale2 = abs(s.pos) + R
+        for u in s.users:
+            p = complex(u.pos)
+            if dist_to_boundary(p, V2) < 1e-9 * R + 64 * EPS * scale2:
+                ctx.tally("tie-zone-points")
+                continue
+            ctx.ev("users-inside", point_in_polygon(p, V2), cls="%s:after-cell-moved" % kind,
+                   detail={**tag, "user": p, "new_pos": complex(s.pos),
+                           "how": ["pos=", "relative", "relative-polar"][how]})
+        V = V2
     # explicit users: relative coordinates, and a user outside must be refused
     if kind in ("cell", "cellsquare"):
         rel = complex(rng.uniform(-0.4, 0.4), rng.uniform(-0.4, 0.4))
